@@ -151,14 +151,15 @@ def nodes_where(mesh, where):
     if where in NAMED:
         return NAMED[where]
     c = mesh.coord[mesh.nodes]
+    eps = 1e-6 * max(float(np.ptp(c[:, 0])), float(np.ptp(c[:, 1])), 1e-300)
     if where == "left":
-        sel = c[:, 0] <= c[:, 0].min() + 1e-9
+        sel = c[:, 0] <= c[:, 0].min() + eps
     elif where == "right":
-        sel = c[:, 0] >= c[:, 0].max() - 1e-9
+        sel = c[:, 0] >= c[:, 0].max() - eps
     elif where == "bottom":
-        sel = c[:, 1] <= c[:, 1].min() + 1e-9
+        sel = c[:, 1] <= c[:, 1].min() + eps
     elif where == "top":
-        sel = c[:, 1] >= c[:, 1].max() - 1e-9
+        sel = c[:, 1] >= c[:, 1].max() - eps
     elif where.startswith("idx:"):
         return np.array([int(x) for x in where[4:].split(",")])
     else:
@@ -218,13 +219,15 @@ class World:
     def __init__(self, typ, opts):
         self.typ = typ
         self.state = {"params": dict(DEFAULT_PARAMS[typ]), "split": opts.get("split", "Bourdin")}
+        self.scale = 1.0
         self.model = make_model(typ, self.state)
         if typ == "Beam":
             P = beam_parts()
             with contextlib.redirect_stdout(io.StringIO()):
                 self.meshes = [P["mesher"].Mesh_Beams(self.state["beams"], elemType="SEG2")]
         else:
-            self.meshes = [quad_mesh(2, 2)]
+            self.scale = float(opts.get("scale", 1.0))
+            self.meshes = [quad_mesh(2, 2, self.scale, self.scale)]
         self.sims = []
 
     def step(self, op):
@@ -241,19 +244,28 @@ class World:
                 NAMED["tip"] = simu.mesh.Nodes_Point(Point(L, L))
             self.sims.append(SimRec(self.typ, simu))
         elif k == "newmesh":
-            self.meshes.append(quad_mesh(op["nx"], op["ny"], op.get("lx", 1.0), op.get("ly", 1.0)))
+            self.meshes.append(quad_mesh(op["nx"], op["ny"], op.get("lx", 1.0) * self.scale, op.get("ly", 1.0) * self.scale))
         elif k == "param":
             self.state["params"][op["name"]] = op["value"]
             set_param(self.typ, self.model, op.get("sub", False), op["name"], op["value"])
         elif k == "move":
             m = self.meshes[op["m"]]
             kind = op["kind"]
+            sc = self.scale
             if kind == "Translate":
-                m.Translate(*op["args"])
+                m.Translate(*[a * sc for a in op["args"]])
             elif kind == "Rotate":
-                m.Rotate(op["args"][0], (0.5, 0.5, 0))
+                m.Rotate(op["args"][0], (0.5 * sc, 0.5 * sc, 0))
             elif kind == "Symmetry":
-                m.Symmetry((0.5, 0, 0), (1, 0, 0))
+                m.Symmetry((0.5 * sc, 0, 0), (1, 0, 0))
+            elif kind == "Perturb":
+                # one node moved by a tiny amount (shape sensitivity by finite differences) through the coord setter
+                c = m.coord
+                n = int(m.nodes[min(int(op["args"][0] * m.nodes.size), m.nodes.size - 1)])
+                size = float(np.abs(c).max()) or 1.0
+                c[n, 0] += op["args"][1] * size
+                c[n, 1] += op["args"][2] * size
+                m.coord = c
             elif kind == "CoordSet":
                 c = m.coord
                 c[:, 0] = c[:, 0] * op["args"][0]
@@ -348,7 +360,7 @@ class World:
                 apply_bc(r, bc)
                 r.bcs.append(bc)
 
-    def observe(self, rec):
+    def observe(self, rec, skip=()):
         """ordered list of (name, array | exception text)"""
         s = rec.simu
         out = []
@@ -364,8 +376,11 @@ class World:
                 out.append((name, "EXC %s: %s" % (type(ex).__name__, str(ex)[:120])))
 
         if rec.typ == "PhaseField":
+            # ONE evaluation right after the last change: derived quantities cached on the model must be fresh
+            grab("psiP", lambda: s.Result("psiP", nodeValues=False))
             for nm, pt in (("Ku", "elastic"), ("Kd", "damage")):
-                grab(nm, lambda pt=pt: s.Get_K_C_M_F(pt)[0])
+                if nm not in skip:
+                    grab(nm, lambda pt=pt: s.Get_K_C_M_F(pt)[0])
             grab("Fd", lambda: s.Get_K_C_M_F("damage")[3])
             grab("solve_u", lambda: do_solve(rec)[0])
             grab("damage", lambda: s.damage)
@@ -457,7 +472,13 @@ def run_case(case):
         try:
             frec = w.fresh(rec)
             w.ensure_wellposed(rec, frec)
-            rel, bad = compare(w.observe(rec), w.observe(frec))
+            skip = set()
+            if rec.typ == "PhaseField" and rec.flags()[1]:
+                # the displacement system is flagged up to date: it was linearised at the displacement of the
+                # previous staggered pass (lag by design of the scheme, the next Solve rebuilds it) -- equality
+                # with a simulation that assembles at the current displacement is not claimed for it
+                skip.add("Ku")
+            rel, bad = compare(w.observe(rec, skip), w.observe(frec, skip))
             res["sims"].append({"mismatch": bool(bad), "rel": rel, "detail": "; ".join(bad[:4])})
         except Exception as ex:  # noqa
             res["sims"].append({"mismatch": True, "rel": {}, "detail": "harness exception %s: %s" % (type(ex).__name__, str(ex)[:200]),
